@@ -168,11 +168,6 @@ def gs_indicator(g, w, coeff=1):
     """[g]*coeff as GSum; g z3 Bool"""
     mask = (1 << w) - 1
     coeff &= mask
-    if z3.is_not(g):
-        inner = g.arg(0)
-        k = inner.get_id()
-        _guard_keep[k] = inner
-        return GSum(w, coeff, {k: (inner, (-coeff) & mask)})
     k = g.get_id()
     _guard_keep[k] = g
     return GSum(w, 0, {k: (g, coeff)})
